@@ -61,13 +61,13 @@ package peers
 // KeyOf: the canonical (upper-case) key string under which a peer is indexed.
 //@ ghost func KeyOf(p *Peer) string { return common.Upper(p.PubKeyHex) }
 // PeerOK: a usable element of a peer slice
-//@ ghost func PeerOK(p *Peer) bool { return p != nil }
+//@ ghost func PeerOK(p *Peer) bool { return p != nil && __allocated(p) }
 // PSHashOf: by definition, the iterated SHA256 over the peers' key bytes, in slice order.
 //@ ghost func PSHashOf(ps []*Peer) []byte
 
 // wf: the index maps agree with the slice: every listed peer is indexed under its canonical key, every
 // indexed peer is listed, and the thresholds' memo cells are consistent.
-//@ ghost func (ps *PeerSet) WF() bool { return ps.ByPubKey != nil && ps.ByID != nil && len(ps.ByPubKey) <= len(ps.Peers) && len(ps.Peers) < 2147483648 && (forall i int :: 0 <= i && i < len(ps.Peers) ==> ps.Peers[i] != nil && __in(KeyOf(ps.Peers[i]), ps.ByPubKey)) && (forall k string :: __in(k, ps.ByPubKey) ==> ps.ByPubKey[k] != nil && KeyOf(ps.ByPubKey[k]) == k) }
+//@ ghost func (ps *PeerSet) WF() bool { return ps.ByPubKey != nil && ps.ByID != nil && len(ps.ByPubKey) <= len(ps.Peers) && len(ps.Peers) < 2147483648 && (forall i int :: 0 <= i && i < len(ps.Peers) ==> ps.Peers[i] != nil && __allocated(ps.Peers[i]) && __in(KeyOf(ps.Peers[i]), ps.ByPubKey)) && (forall k string :: __in(k, ps.ByPubKey) ==> ps.ByPubKey[k] != nil && __allocated(ps.ByPubKey[k]) && KeyOf(ps.ByPubKey[k]) == k) }
 
 //@ func (p *Peer) PubKeyString() string
 //@   requires p != nil
@@ -94,7 +94,7 @@ package peers
 //@   ensures[fresh] __fresh(peerSet.ByPubKey) && __fresh(peerSet.ByID)
 //@   loop 1 invariant[maps]  peerSet.ByPubKey != nil && peerSet.ByID != nil && __fresh(peerSet.ByPubKey) && __fresh(peerSet.ByID) && len(peerSet.ByPubKey) <= __idx()
 //@   loop 1 invariant[in]    forall i int :: 0 <= i && i < __idx() ==> __in(KeyOf(peerSet.Peers[i]), peerSet.ByPubKey)
-//@   loop 1 invariant[back]  forall k string :: __in(k, peerSet.ByPubKey) ==> peerSet.ByPubKey[k] != nil && KeyOf(peerSet.ByPubKey[k]) == k
+//@   loop 1 invariant[back]  forall k string :: __in(k, peerSet.ByPubKey) ==> peerSet.ByPubKey[k] != nil && __allocated(peerSet.ByPubKey[k]) && KeyOf(peerSet.ByPubKey[k]) == k
 
 //@ func NewPeerSet(peers []*Peer) *PeerSet
 //@   requires len(peers) < 2147483648 && (forall i int :: 0 <= i && i < len(peers) ==> PeerOK(peers[i]))
@@ -125,7 +125,7 @@ package peers
 //@   ensures[removed] forall i int :: 0 <= i && i < len(ret0.Peers) ==> ret0.Peers[i].PubKeyHex != peer.PubKeyHex
 //@   ensures[subset]  len(ret0.Peers) <= len(peerSet.Peers)
 //@   ensures[kept]    __eq(peerSet.Peers, old(peerSet.Peers))
-//@   loop 1 invariant[filter] len(peers) <= __idx() && !(peers == nil) && (forall i int :: 0 <= i && i < len(peers) ==> peers[i] != nil && peers[i].PubKeyHex != peer.PubKeyHex)
+//@   loop 1 invariant[filter] len(peers) <= __idx() && !(peers == nil) && (forall i int :: 0 <= i && i < len(peers) ==> peers[i] != nil && __allocated(peers[i]) && peers[i].PubKeyHex != peer.PubKeyHex)
 
 //@ func (peerSet *PeerSet) Hex() string
 //@   requires peerSet != nil
